@@ -2,7 +2,7 @@
 import itertools
 
 import numpy as np
-from hypothesis import strategies as st
+from hypothesis import reject, strategies as st
 
 from vf.harness import Clause, Info, require, Violation, Skip
 
@@ -122,7 +122,7 @@ def avoid_gates(v, gates, margin, f32):
         g = near[0]
         side = 1.0 if ((v - g) % 360.0) < 180.0 else -1.0
         v = _snap(g + side * margin * (1.5 + attempt), f32)
-    raise Skip("could not move angle away from the gates")
+    reject()      # (never observed) no gate-free value nearby: let Hypothesis draw another example
 
 
 def region_angle(region, k, bounds, buf, x):
@@ -188,7 +188,8 @@ def buffer_for(draw, bounds, zero=False, limit=None):
     elif kind == "partial":     # some, not all, basins have crossed gates
         b = thr[0] + (thr[-1] - thr[0]) * x
     else:
-        lo, hi = {"small": (min(30.0, lim) * 0.02, min(30.0, lim)), "mid": (min(30.0, lim), cross), "wide": (cross * 0.9, lim)}[kind]
+        lo, hi = {"small": (min(30.0, lim) * 0.02, min(30.0, lim)), "mid": (min(30.0, lim), cross),
+                  "wide": (cross * 0.9, lim)}[kind]
         b = lo + (hi - lo) * x
     if not (0 <= b < lim):
         b = lim * x
@@ -318,17 +319,13 @@ def history_info(case, vals, ref=None):
             in_buffer_since = None
         if s != s_prev:
             in_buffer_since = None
-    if a0_on_boundary(vals[0], bounds):
+    if vals[0] in bounds:
         cls.add("first_on_boundary")
     if seam:
         cls.add("seam_crossed")
     if returned:
         cls.add("buffer_return")
     return Info(seam and returned, sorted(cls)), ref
-
-
-def a0_on_boundary(a, bounds):
-    return a in bounds
 
 
 def valid_states(out, n):
@@ -687,13 +684,17 @@ def run_pipeline(case):
 # matchers for known findings (used only if known_findings.json lists them)
 
 def m_crossed_gates(case, exc):
-    """Two-basin set, buffer so wide that the widened current basin covers the whole circle: the library leaves the
-    state (re-bins) although the reference machine can never leave. Narrow: the FIRST disagreement with the reference
-    must be exactly that event; anything else (wrong re-binning target, first frame, proper regime) is not matched."""
+    """Buffer so wide that the widened first/last (wrap-around) basin covers the whole circle (2*buffer >= 360 - width;
+    reachable for the library's two-basin sets): its two gates cross, is_buffered_transition takes the non-wrap branch
+    and the library re-bins although the reference machine can never leave. Narrow: the FIRST disagreement with the
+    reference must be exactly that event (reference stays in a crossed wrap-around state, library moves to the basin
+    containing the angle); a wrong re-binning target, a first-frame error, or any error in the proper regime or in an
+    inner basin is not matched."""
     if not isinstance(exc, Violation) or "angles" not in case:
         return False
     bounds, buf = case["bounds"], float(case["buffer"])
-    if len(bounds) != 3 or not crossed_states(bounds, buf):
+    crossed = [k for k in crossed_states(bounds, buf) if k in (0, len(bounds) - 2)]
+    if not crossed:
         return False
     out, vals = lib_states(case)
     got = [int(s) for s in out]
@@ -704,7 +705,7 @@ def m_crossed_gates(case, exc):
     if i == 0:
         return False
     s = ref[i - 1]
-    return s in crossed_states(bounds, buf) and ref[i] == s and got[i] == basin_of(vals[i], bounds)
+    return s in crossed and ref[i] == s and got[i] == basin_of(vals[i], bounds)
 
 
 def m_no_transition_anywhere(case, exc):
@@ -713,10 +714,10 @@ def m_no_transition_anywhere(case, exc):
         return False
     if any(ref_transitions(r) for r in case["rows"]):
         return False
-    return isinstance(exc, (IndexError, AttributeError)) and not isinstance(exc, Violation)
+    return isinstance(exc, (IndexError, AttributeError, TypeError)) and not isinstance(exc, Violation)
 
 
-MATCHERS = {"crossed_gates_two_basins": m_crossed_gates, "no_transition_anywhere": m_no_transition_anywhere}
+MATCHERS = {"crossed_gates_wraparound_basin": m_crossed_gates, "no_transition_anywhere": m_no_transition_anywhere}
 
 
 CLAUSES = [
